@@ -832,9 +832,11 @@ def propagate_new_constants(trees: List[ast.AST], pinned_globals) -> bool:
                     consts[st.targets[0].id] = v
                     continue
                 inner = v.args[0] if isinstance(v, ast.Call) and isinstance(v.func, ast.Name) and v.func.id in ("frozenset", "set", "tuple", "list") and len(v.args) == 1 and not v.keywords else v
-                if isinstance(v, ast.Constant) and isinstance(v.value, (int, float, str)) and not isinstance(v.value, bool):
+                if isinstance(v, ast.UnaryOp) and isinstance(v.op, ast.USub) and isinstance(v.operand, ast.Constant) and isinstance(v.operand.value, (int, float)) and not isinstance(v.operand.value, bool):
+                    consts[st.targets[0].id] = v  # a negative number
+                elif isinstance(v, ast.Constant) and isinstance(v.value, (int, float, str)) and not isinstance(v.value, bool):
                     consts[st.targets[0].id] = v
-                elif isinstance(inner, (ast.Tuple, ast.List, ast.Set)) and inner.elts and all(isinstance(e, ast.Constant) and isinstance(e.value, (int, float, str)) for e in inner.elts):
+                elif isinstance(inner, (ast.Tuple, ast.List, ast.Set)) and inner.elts and (all(isinstance(e, ast.Constant) and isinstance(e.value, (int, float, str)) for e in inner.elts) or isinstance(inner, ast.Tuple) and constlike(inner)):
                     consts[st.targets[0].id] = inner  # a constant collection used for membership tests
                 elif isinstance(v, ast.Call) and isinstance(v.func, ast.Name) and v.func.id in ("datetime", "timedelta") and all(isinstance(a, ast.Constant) for a in v.args) and all(isinstance(k.value, ast.Constant) for k in v.keywords):
                     consts[st.targets[0].id] = v  # an immutable value built from literals
